@@ -1,8 +1,29 @@
 """kernel specs: src/poly1305.rs block / finish  (shape of lean/CxVerif/Impl/Poly1305.lean: Nat let-chains)"""
-from kernel_translate import Kernel
+from kernel_translate import Kernel, TranslateError
 
 L5 = lambda v: {f"self.{v}[{i}]": (f"{v}.l{i}", "u32") for i in range(5)}
-CALLS = {"mul64": ("{0} * {1}", "u64", ["u32", "u32"]), "read_u32_le": ("rd32 {0} {1}", "u32", [])}
+
+
+def rd32(tr, args):
+    """`read_u32_le(&m[a..b])`: the Lean primitive `rd32 m a` reads FOUR bytes, so the slice must be exactly `a..a+4` (read_u32_le
+    asserts `input.len() == 4`: any other length is a panic the model does not have)"""
+    if len(args) != 1 or not isinstance(args[0], tuple):
+        raise TranslateError("read_u32_le of something that is not a constant slice `&m[a..b]`")
+    base, lo, hi = args[0]
+    if not (lo.isdigit() and hi.isdigit()) or int(hi) - int(lo) != 4:
+        raise TranslateError(f"read_u32_le(&{base}[{lo}..{hi}]): the slice is not 4 bytes long (would panic)")
+    return f"rd32 {base} {lo}"
+
+
+CALLS = {"mul64": ("{0} * {1}", "u64", ["u32", "u32"]), "read_u32_le": (rd32, "u32", [])}
+USES = {"read_u32_le": "crate::cryptoutil::read_u32_le"}
+
+
+def finish_prologue(i, s):
+    """the first statement of `finish`, `if self.leftover > 0 { pad; self.block(&tmp) }`, belongs to the stateful glue
+    (tools/kernels/glue_mac.py: finish prologue); ONLY that statement is left out here"""
+    return (i == 0 and s[0] in ("expr", "ret") and s[1][0] == "if" and s[1][3] is None
+            and s[1][1] == ("bin", ">", ("field", ("path", "self"), "leftover"), ("lit", 0, None)))
 
 
 def block_result(tr, ret):
@@ -19,14 +40,14 @@ KERNELS = [
     Kernel(file="src/poly1305.rs", fn="block", lean_name="block_src", backend="natlet",
            params="(r h : L5) (m : Bytes) (hibit : Nat)", ret_type="L5",
            env={**L5("r"), **L5("h"), "hibit": ("hibit", "u32")},
-           calls=CALLS, stores={f"self.h[{i}]": f"h{i}" for i in range(5)},
-           stmt_filter=lambda i, s: not (s[0] == "let" and s[1] == ("var", "hibit")),
+           calls=CALLS, uses=USES, stores={f"self.h[{i}]": f"h{i}" for i in range(5)},
+           stmt_filter=lambda i, s: not (i == 0 and s[0] == "let" and s[1] == ("var", "hibit")),
            result=block_result, doc="the arithmetic of `Poly1305::block` (r, h limbs; message bytes m; hibit)"),
     Kernel(file="src/poly1305.rs", fn="finish", lean_name="finish_src", backend="natlet",
            params="(h : L5) (pad : L4)", ret_type="L4",
            env={**L5("h"), **{f"self.pad[{i}]": (f"pad.w{i}", "u32") for i in range(4)}},
-           calls=CALLS, stores={**{f"self.h[{i}]": f"h{i}" for i in range(4)}, "self.finalized": "_fin"},
-           stmt_filter=lambda i, s: not (s[0] in ("expr", "ret") and s[1][0] == "if"),
+           calls=CALLS, uses=USES, stores={**{f"self.h[{i}]": f"h{i}" for i in range(4)}, "self.finalized": "_fin"},
+           stmt_filter=lambda i, s: not finish_prologue(i, s),
            result=finish_result, doc="the arithmetic of `Poly1305::finish` after the optional last block"),
 ]
 HEADER = "import CxVerif.Impl.Poly1305\nnamespace Cx.Extracted.KernelsPoly1305\nopen Cx Cx.Impl.Poly1305\n"
